@@ -85,16 +85,20 @@ def build(sanitize=False):
     return exe
 
 
-def write_inputs(d, st, eq, wc, start=None):
+NUMBER_SPELLINGS = {"int": "%d ", "point": "%.1f ", "exp": "%.7e ", "wide": "%6d "}   # the loader reads the entries with %lf
+
+
+def write_inputs(d, st, eq, wc, start=None, spelling="int"):
     """the three files exactly as design/spurious_design.py writes them ("%d " per entry, raw template
     characters, no newline); `start` (optional) is an initial sequence file for `sequence=`."""
     paths = {"st": os.path.join(d, "x.st"), "eq": os.path.join(d, "x.eq"), "wc": os.path.join(d, "x.wc")}
+    fmt = NUMBER_SPELLINGS[spelling]
     with open(paths["eq"], "w") as f:
         for x in eq:
-            f.write("%d " % x)
+            f.write(fmt % x)
     with open(paths["wc"], "w") as f:
         for x in wc:
-            f.write("%d " % x)
+            f.write(fmt % x)
     with open(paths["st"], "w") as f:
         for x in st:
             f.write("%c" % x)
@@ -112,11 +116,11 @@ def command_line(exe, paths, opts):
     return cmd + list(opts)
 
 
-def run_ssm(st, eq, wc, opts, seed, sanitize=False, start=None, timeout=20.0):
+def run_ssm(st, eq, wc, opts, seed, sanitize=False, start=None, timeout=20.0, spelling="int"):
     """-> (rc, stdout, stderr, trace_lines, timed_out).  rc is None when the run was killed."""
     exe = build(sanitize)
     with core.scratch("pepper_ssm_") as d:
-        paths = write_inputs(d, st, eq, wc, start)
+        paths = write_inputs(d, st, eq, wc, start, spelling)
         trace = os.path.join(d, "trace.txt")
         env = dict(os.environ)
         env[core.GUARD] = "1"
